@@ -106,3 +106,70 @@ Section Proofs.
     now rewrite nth_reference by auto.
   Qed.
 End Proofs.
+
+(* With one iteration per thread every iteration starts from the fresh scratch: the reference result is obtained
+   whatever the body does with its scratch.  (This is why a carried-over buffer is invisible when there are at
+   least as many threads as frames.) *)
+Section OneEach.
+  Variables (I S O : Type).
+  Variable body : S -> I -> S * O.
+  Variable s0 : S.
+  Variable dflt : I.
+
+  Lemma writes_one_each : forall inputs l,
+    writes body s0 dflt inputs (map (fun i => [i]) l) = map (fun i => (i, snd (body s0 (nth i inputs dflt)))) l.
+  Proof.
+    intros inputs l. unfold writes. induction l as [|i l IH]; cbn; [reflexivity|].
+    destruct (body s0 (nth i inputs dflt)) as [s' o] eqn:E. cbn. f_equal. exact IH.
+  Qed.
+
+  Lemma lookup_map_seq : forall (f : nat -> O) l i, In i l ->
+    lookup i (map (fun j => (j, f j)) l) = Some (f i).
+  Proof.
+    intros f l. induction l as [|j l IH]; intros i Hi; cbn in *; [contradiction|].
+    destruct (Nat.eqb_spec i j) as [->|Hne]; [reflexivity|]. destruct Hi as [->|Hi]; [congruence|auto].
+  Qed.
+
+  Theorem parfor_one_each : forall inputs,
+    parfor body s0 dflt inputs (sched_one_each (length inputs)) = reference body s0 inputs.
+  Proof.
+    intros inputs. unfold parfor, reference, sched_one_each. rewrite writes_one_each.
+    rewrite (map_seq_nth I dflt _ (fun x => Some (snd (body s0 x))) inputs).
+    apply map_ext_in. intros i Hi. now rewrite lookup_map_seq.
+  Qed.
+End OneEach.
+
+(* ---- the standard schedules are admissible ---- *)
+Lemma covers_of_concat_seq : forall n sched, concat sched = seq 0 n -> covers n sched.
+Proof. intros n sched H. unfold covers. rewrite H. split; intros i Hi; [apply in_seq; lia|apply in_seq in Hi; lia]. Qed.
+
+Lemma serial_covers : forall n, covers n (sched_serial n).
+Proof. intros n. apply covers_of_concat_seq. cbn. now rewrite app_nil_r. Qed.
+
+Lemma one_each_covers : forall n, covers n (sched_one_each n).
+Proof.
+  intros n. apply covers_of_concat_seq. unfold sched_one_each.
+  induction (seq 0 n) as [|x l IH]; cbn; [reflexivity|now rewrite IH].
+Qed.
+
+Lemma static_chunk_le : forall n t, 1 <= t -> n / t + (if n mod t =? 0 then 0 else 1) <= n.
+Proof.
+  intros n t Ht. pose proof (Nat.div_mod n t ltac:(lia)) as E.
+  pose proof (Nat.mod_upper_bound n t ltac:(lia)) as U.
+  destruct (Nat.eqb_spec (n mod t) 0) as [Hz|Hz]; nia.
+Qed.
+
+Lemma static_blocks_concat : forall t start n, 1 <= t -> concat (static_blocks start n t) = seq start n.
+Proof.
+  induction t as [|t IH]; intros start n Ht; [lia|].
+  cbn [static_blocks concat]. set (q := n / S t + (if n mod S t =? 0 then 0 else 1)).
+  assert (Hq : q <= n) by (apply static_chunk_le; lia).
+  destruct t as [|t].
+  - cbn [static_blocks concat]. rewrite app_nil_r.
+    assert (Hn : q = n). { unfold q. rewrite Nat.div_1_r, Nat.mod_1_r. cbn. lia. }
+    now rewrite Hn.
+  - rewrite IH by lia. replace n with (q + (n - q)) at 2 by lia. now rewrite seq_app.
+Qed.
+
+Lemma static_covers : forall n t, 1 <= t -> covers n (sched_static n t).
+Proof. intros n t Ht. apply covers_of_concat_seq. now apply static_blocks_concat. Qed.
